@@ -1,6 +1,13 @@
+# Props/C06.lean imports Props/C04, whose translated definition (Hy/Gen/TransVarint.lean) must be
+# regenerated from the tree under check before the build (and its fault-site table: a file left behind by
+# a run on another tree would be built against)
+from .C04 import gen_sites as gen_sites_c04, gen_trans_varint
+
+
 CFG = {
     "props_module": "Hy.Props.C06",
     "gen_modules": ["core"],
+    "gen_hooks": [gen_sites_c04, gen_trans_varint],
     "level": "proof",
     "race": True,
     "streams": [
